@@ -17,6 +17,7 @@ import (
 	"io/ioutil"
 	"os"
 	"path/filepath"
+	"sync"
 
 	"github.com/vx-labs/wasp/v4/wasp/auth"
 	"verifharness/internal/rec"
@@ -33,6 +34,10 @@ type scenario struct {
 	Table   []ent  `json:"table"`
 	Order   []int  `json:"order"`
 	Queries []ent  `json:"queries"`
+	// Storm: that many goroutines put the queries to the (one, shared) handler at the same time, Rounds times over - the
+	// broker authenticates on 20 concurrent workers.  Every outcome must be what the table implies, whoever else is asking.
+	Storm  int `json:"storm"`
+	Rounds int `json:"rounds"`
 }
 
 func main() {
@@ -93,6 +98,37 @@ func main() {
 		}
 		r.Emit(rec.Ev{"op": "new", "scn": n, "kind": s.Kind, "table": tbl, "order": s.Order, "loaded": lerr == nil && !panicked, "panic": panicked})
 		if lerr != nil || panicked {
+			continue
+		}
+		if s.Storm > 0 {
+			var wg sync.WaitGroup
+			start := make(chan struct{})
+			for g := 0; g < s.Storm; g++ {
+				wg.Add(1)
+				go func(g int) {
+					defer wg.Done()
+					<-start
+					for round := 0; round < s.Rounds; round++ {
+						for k := range s.Queries {
+							q := s.Queries[(k+g)%len(s.Queries)]
+							var p auth.Principal
+							var aerr error
+							pn := false
+							func() {
+								defer func() {
+									if recover() != nil {
+										pn = true
+									}
+								}()
+								p, aerr = h.Authenticate(context.Background(), auth.ApplicationContext{ClientID: []byte("c"), Username: []byte(q.U), Password: []byte(q.P)}, auth.TransportContext{})
+							}()
+							r.Emit(rec.Ev{"op": "auth", "u": q.U, "p": q.P, "ok": aerr == nil && !pn, "mount": p.MountPoint, "idlen": len(p.ID), "panic": pn})
+						}
+					}
+				}(g)
+			}
+			close(start)
+			wg.Wait()
 			continue
 		}
 		for _, q := range s.Queries {
